@@ -321,3 +321,88 @@ def single_pass_obligation(ctx, rule: str, fi, param: str, what: str) -> None:
                      f"generator), so it is traversed at most once before being materialised",
            k <= 1, detail=f"`{param}` is read {'more than once' if k > 1 else str(k) + ' time(s)'} "
                           f"on one path", stmt=f"{param} traversed more than once")
+
+
+def alternatives(t: Term, depth: int = 0) -> list[Term]:
+    """The values a term can take, one per branch: joins at the top and in the direct
+    arguments of a call are expanded (f(phi(c, a, b), x) has the alternatives f(a, x) and
+    f(b, x)); `undef` arms (a branch that raised) are dropped.  Lets a rule state WHAT the
+    alternatives are without caring where the branch was written."""
+    if not isinstance(t, tuple) or not t or depth > 6:
+        return [t]
+    if t[0] in ("phi", "ifexp") and len(t) == 4:
+        out = []
+        for arm in (t[2], t[3]):
+            if arm and arm[0] == "undef":
+                continue
+            out.extend(alternatives(arm, depth + 1))
+        return out
+    if t[0] == "call" and len(t) == 4:
+        for i, a in enumerate(t[2]):
+            if isinstance(a, tuple) and a and a[0] in ("phi", "ifexp"):
+                out = []
+                for alt in alternatives(a, depth + 1):
+                    out.extend(alternatives((t[0], t[1], t[2][:i] + (alt,) + t[2][i + 1:], t[3]),
+                                            depth + 1))
+                return out
+    return [t]
+
+
+def fn_parts(repo: Repo, t: Term, closure: dict | None = None):
+    """(parameter names, returned term) of a function VALUE, whether it is written as a
+    lambda or as a (local / module-level) def -- or None."""
+    if not isinstance(t, tuple) or not t:
+        return None
+    if t[0] == "lambda":
+        return [p.lstrip("*") for p in t[1]], t[2]
+    if t[0] in ("fn", "g"):
+        fi = repo.functions.get(t[1])
+        if fi is None:
+            return None
+        return ([p.lstrip("*") for p in fi.pos_params()],
+                evaluate(repo, fi, closure=closure or {}).ret())
+    return None
+
+
+_CALLERS_CACHE: dict = {}
+
+
+def owners(repo: Repo, fi: FunctionInfo, depth: int = 0) -> set[str]:
+    """The functions KNOWN to the rules (baseline list) on whose behalf `fi` runs: `fi`
+    itself when the rules know it, otherwise the known functions that call it (a helper
+    extracted from a tabled function inherits that function's entry in who-may-do tables).
+    A new function nobody calls stands for itself."""
+    from ..core.terms import baseline_functions
+    base = baseline_functions()
+    root = fi
+    while root.parent is not None:
+        root = root.parent
+    if root.qualname in base or depth > 3:
+        return {fi.qualname if fi is root else fi.qualname}
+    key = id(repo)
+    if key not in _CALLERS_CACHE:
+        idx: dict[str, list[FunctionInfo]] = {}
+        for g in repo.functions.values():
+            if isinstance(g.node, ast.Lambda):
+                continue
+            for x in ast.walk(g.node):
+                if isinstance(x, ast.Call):
+                    f = x.func
+                    nm = f.attr if isinstance(f, ast.Attribute) else getattr(f, "id", None)
+                    if nm:
+                        idx.setdefault(nm, []).append(g)
+        _CALLERS_CACHE.clear()
+        _CALLERS_CACHE[key] = idx
+    out: set[str] = set()
+    for g in _CALLERS_CACHE[key].get(root.name, []):
+        if g is root or g.qualname == root.qualname:
+            continue
+        same_scope = (g.module is root.module) and (root.cls is None or g.cls is root.cls
+                                                    or g.cls is None)
+        if not same_scope:
+            continue
+        gr = g
+        while gr.parent is not None:
+            gr = gr.parent
+        out |= owners(repo, gr, depth + 1) if gr.qualname not in base else {g.qualname}
+    return out or {fi.qualname}
